@@ -190,6 +190,28 @@ def judge(c, rec, res):
     return 'ok', 'tree', None, None
 
 
+def crash_violation(ck, rec, c, res, prefix='C20:'):
+    """crashes get a key made of tool, kind and source file of the report (function names of the symbolizer proved unstable when
+    the library is rebuilt while a batch runs), plus the construct class the model knows to trigger the known crash"""
+    if rec.hang and not rec.crash:
+        cls = c.meta.get('class', '?')
+        if res is not None and res.kind == 'fatal' and res.cls == 'loop':
+            cls = 'loop:length-%d' % res.extra['length']
+        ck.violation('%shang:%s' % (prefix, cls), 'case did not terminate within the watchdog (re-run once alone with three times the budget)', {'case': c.to_json()})
+        return
+    rep = rec.crash
+    where = '?'
+    import re
+    m = re.search(r'([A-Za-z0-9_]+\.(?:cpp|hpp|c)):\d+(?::\d+)?: runtime error', rep.text) or re.search(r'/src/xercesc/[a-z/]+/([A-Za-z0-9_]+\.(?:cpp|hpp)):\d+', rep.text)
+    if m:
+        where = m.group(1)
+    kind = re.sub(r"[^A-Za-z0-9]+", '-', rep.kind.split(' of type')[0]).strip('-')
+    cls = 'other'
+    if res is not None and 'include-replaced-by-nothing:first-child' in res.features:
+        cls = 'include-replaced-by-nothing:first-child'
+    ck.violation('%scrash:%s:%s:%s:%s' % (prefix, rep.tool, kind, where, cls), 'sanitizer/crash report', {'case': c.to_json(), 'report': rep.text[:6000]})
+
+
 # ---------------------------------------------------------------------------------------------------------------------
 HAND = [  # regression graphs (each a finding or a corner met during development); (name, files, root)
     ('chain-dirs', {'a.xml': '<r xmlns:xi="%s"><p>x</p><xi:include href="sub/b.xml"/><q/></r>' % xigen.XI,
@@ -262,7 +284,7 @@ def run(tier):
             ck.inconclusive.append('no record for %s' % c.id)
             continue
         if not rec.complete or rec.crash or rec.hang:
-            ck.crash_violation(rec, c, 'C20:')
+            crash_violation(ck, rec, c, res)
             continue
         ck.evaluations += 1
         verdict, key, what, detail = judge(c, rec, res)
@@ -306,7 +328,7 @@ def run(tier):
             ck.inconclusive.append('no record for %s' % c.id)
             continue
         if not rec.complete or rec.crash or rec.hang:
-            ck.crash_violation(rec, c, 'C20:in-repo:')
+            crash_violation(ck, rec, c, None, 'C20:in-repo:')
             continue
         ck.evaluations += 1
         st = observed(rec)[0]
